@@ -94,6 +94,8 @@ structure St where
   wSnap : Option Bool := none   -- at the reducer's FIRST Write (its guard): was an error recorded / the context over?
   eSnap : Option Bool := none   -- at the end of the reducer function: was an error recorded?
   onceBy : Option Canceller := none   -- who entered cancel's sync.Once
+  wroteBy : Option PVal := none       -- whose panic won the CAS of onceChan.write
+  consumed : Bool := false            -- the caller has received the panic value
 
 def init (c : Cfg) : St := { rpc := .run c.rscript, ctxDone := c.ctxPre }
 
@@ -130,7 +132,7 @@ def stepGen (c : Cfg) (s : St) : Option St :=
     if c.gPanicAt = some s.gNext then some { s with gpc := .pwrite }
     else if c.n ≤ s.gNext then some { s with gpc := .close }
     else none                       -- waits at the send; the receiver's step moves it
-  | .pwrite => if s.wrote then some { s with gpc := .close } else some { s with wrote := true, gpc := .psend }
+  | .pwrite => if s.wrote then some { s with gpc := .close } else some { s with wrote := true, gpc := .psend, wroteBy := some .gen }
   | .psend => (panicSend c s .gen).map fun s' => { s' with gpc := .close }
   | .close => some { s with srcClosed := true, gpc := .done }
   | .done => none
@@ -182,7 +184,7 @@ def stepMapper (c : Cfg) (s : St) (i : Nat) : Option St :=
   | .recovered => some { s with failed := s.failed + 1, mp := upd s.mp i .pwrite }
   | .pwrite =>
     if s.wrote then some { s with mp := upd s.mp i .wgdone }
-    else some { s with wrote := true, mp := upd s.mp i .psend }
+    else some { s with wrote := true, mp := upd s.mp i .psend, wroteBy := some (.mapper i) }
   | .psend => (panicSend c s (.mapper i)).map fun s' => { s' with mp := upd s'.mp i .wgdone }
   | .wgdone => some { s with wg := s.wg - 1, mp := upd s.mp i .unpool }
   | .unpool => some { s with pool := s.pool - 1, mp := upd s.mp i .done }
@@ -229,7 +231,7 @@ def stepRed (c : Cfg) (s : St) : Option St :=
         | some pv => some { s with rpc := .pwrite pv }
         | none => some { s with rpc := .finish }
       else none
-  | .pwrite pv => if s.wrote then some { s with rpc := .finish } else some { s with wrote := true, rpc := .psend pv }
+  | .pwrite pv => if s.wrote then some { s with rpc := .finish } else some { s with wrote := true, rpc := .psend pv, wroteBy := some pv }
   | .psend pv => (panicSend c s pv).map fun s' => { s' with rpc := .finish }
   | .finish => some { s with fin := true, rpc := .done }
   | .done => none
@@ -255,7 +257,7 @@ def stepCaller (c : Cfg) (s : St) : Option St :=
   | .defer r => if s.fin then (if c.fixed then some { s with cpc := .check r } else some { s with cpc := .done r }) else none
   | .check r =>
     match s.pbuf with
-    | some p => some { s with pbuf := none, cpc := .done (.panic p) }
+    | some p => some { s with pbuf := none, cpc := .done (.panic p), consumed := true }
     | none => some { s with cpc := .done r }
   | .done _ => none
 
@@ -270,7 +272,7 @@ def step (c : Cfg) (s : St) : Actor → Option St
   | .callerPanic =>
     if s.cpc = .sel ∧ c.fixed then
       match s.pbuf with
-      | some p => some { s with pbuf := none, cpc := .drainOut p }
+      | some p => some { s with pbuf := none, cpc := .drainOut p, consumed := true }
       | none => none
     else none
   | .callerOut => if s.cpc = .sel ∧ s.fin then some { s with cpc := .defer (outRes s) } else none
